@@ -8,7 +8,7 @@ raise subclass, VM error, native error} x catch filter {none, Error, subclass,
 non-matching class} x exit path {complete, break, continue, return} x late second error,
 followed by an epilogue that prints every parameter, local and result variable, declares
 and uses a new variable and optionally raises a second error after the try was left;
-plus the multi-clause family (1-4 catch clauses per try in 9 matching patterns x 5 placements
+plus the multi-clause family (1-4 catch clauses per try in 9 matching patterns, with and without a try of its own inside every clause, x 5 placements
 x 4 origins x loops x exits x raise-in-handler) and the opcode-prefix family (vlib/spaces.py): one statement per stack-affecting construct
 of the language (47, singly and in all ordered pairs) before or inside a try that fires in
 a method of a subclass, the epilogue prints local, parameter, result and two fields.
@@ -143,7 +143,7 @@ CLAUSE_SETS = [["MyErr"], ["OtherErr", "MyErr"], ["MyErr", "OtherErr"], ["OtherE
                ["OtherErr", "ThirdErr", "Error", None]]
 
 
-def multi_scenario(pl, clauses, origin, loop, exitp, raise_in_handler):
+def multi_scenario(pl, clauses, origin, loop, exitp, raise_in_handler, nested_in_handler=False):
     """several catch clauses on one try: the first matching one runs, the others leave no trace on the stack (locals declared after the try read their own values)"""
     if exitp in ("break", "continue") and loop == "none":
         return None
@@ -157,6 +157,11 @@ def multi_scenario(pl, clauses, origin, loop, exitp, raise_in_handler):
     cl = []
     for k, cname in enumerate(clauses):
         h = [["let", "h%d" % k, N(k)], ["expr", ["assign", "r", ["bin", "+", V("r"), S("+c%d" % k)]]], err_print("h%d" % k, "e%d" % k)]
+        if nested_in_handler:
+            # a try of its own inside every clause (its handler depth is that of the clause, whichever position the clause has)
+            h += [["try", [["let", "n%d" % k, N(20 + k)], ["raise", call("OtherErr", S("nested%d" % k))]], "ne%d" % k, None,
+                   [["let", "nh%d" % k, N(30 + k)], err_print("nested", "ne%d" % k), ["expr", ["assign", "r", ["bin", "+", V("r"), S("+n")]]]]],
+                  ["let", "after%d" % k, N(40 + k)], ["print", [S("locals"), V("h%d" % k), V("after%d" % k), V("l0")]]]
         if raise_in_handler and k == len(clauses) - 1:
             h.append(["raise", call("ThirdErr", S("from handler"))])
         cl.append(("e%d" % k, cname, h))
@@ -210,6 +215,8 @@ class C04(Check):
                             for rih in (False, True):
                                 if multi_scenario(pl, CLAUSE_SETS[ci], origin, loop, exitp, rih) is not None:
                                     yield ("multi", pl, ci, origin, loop, exitp, rih)
+                                    if origin != "none":
+                                        yield ("multi", pl, ci, origin, loop, exitp, rih, True)
         for f in space:
             if f[5] is None and f[6] != ORIGINS[0] and not th:
                 continue
@@ -220,7 +227,7 @@ class C04(Check):
 
     def describe(self, spec):
         if spec[0] == "multi":
-            return "multi-catch placement=%s clauses=%s origin=%s loop=%s exit=%s raise_in_handler=%s" % (spec[1], CLAUSE_SETS[spec[2]], spec[3], spec[4], spec[5], spec[6])
+            return "multi-catch placement=%s clauses=%s origin=%s loop=%s exit=%s raise_in_handler=%s%s" % (spec[1], CLAUSE_SETS[spec[2]], spec[3], spec[4], spec[5], spec[6], " nested_try_in_every_clause" if len(spec) > 7 else "")
         if spec[0] == "opc":
             from vlib import spaces
             return "opcode-prefix %s: %s" % (spec[1], " ".join(spaces.OPCODE_PREFIXES[i] for i in spec[1][0])[:200])
